@@ -259,9 +259,9 @@ def run_case(case):
                 for fn, text in case["files"].items():
                     with open(os.path.join(d, fn), "w") as f:
                         f.write(text)
-                with open(os.path.join(d, "main.m"), "w") as f:
+                with open(os.path.join(d, "m0.m"), "w") as f:
                     f.write(case["model"])
-                model = mm.model_from_str(case["model"], file_name=os.path.join(d, "main.m"),
+                model = mm.model_from_str(case["model"], file_name=os.path.join(d, "m0.m"),
                                           pre_ref_resolution_callback=pre)
             else:
                 model = mm.model_from_str(case["model"], pre_ref_resolution_callback=pre)
